@@ -49,6 +49,10 @@ CLAIMS = {
   text="partial: the character-level state machine of base.ReadMultiline, for every input and every byte: the reader's mode after the byte is the lexical state Go's grammar assigns (code, after '/', line comment, general comment, general comment after '*', string / raw string / rune literal, after a backslash inside one; '#!' opens a line comment) and the bracket depth counts exactly the brackets read in code - stated as a transition relation of one loop iteration (loop step clauses) and proved for all iterations; so the mode 'code' and depth 0, in which alone a chunk is cut, mean 'not inside a string, raw string, rune, comment or unbalanced bracket'",
   note="trusted: go/ssa front end, SMT solvers, Readline hands over lines that end in a newline. Not covered: losslessness of the concatenation, the line-continuation rules (operators, commas, keywords), the cut test itself, prompts, first-token position, EvalReader / ReadParseEvalPrint",
   ref="DESIGN.md section 0.1, section 5 C26"),
+ "C27": dict(
+  text="partial (the second sentence of the property): for every position and every starting line, File.PositionFor / Position give the standard token.File position with the line shifted by the file's starting line when that position is valid, and unchanged otherwise (file name, column, offset never change); FileSet.PositionFor does so for the file the position belongs to and gives the zero position when there is none; File.Source hands out exactly the source line of that (unshifted) line number, or nothing when it is out of range; AddFile registers the file under its inner file with the starting line given",
+  note="trusted: token.File.PositionFor and token.FileSet.File pure, token.Position.IsValid() == (Line > 0), sync.Mutex without effect in the sequential model, go/ssa front end, SMT solvers. Not covered: the line counter advanced per chunk (Output.IncLine, Interp.Read, afterEval) and that errors / panics / debugger stops report these positions",
+  ref="DESIGN.md section 0.1, section 5 C27"),
  "C28": dict(
   text="partial: (1) Identical, IdenticalIgnoreTags, identical, identicalVar and Hasher.Hash, hashFor, hashTuple, hashVar, hashNamed, hashString return without failing (no index out of range, nil dereference, failed assertion, explicit panic, nil-map write) and write nothing but the hasher's memo table, for every well-formed type, with loop invariants; (2) the type-keyed map at bucket level, for all states: At returns the value of the first live entry of the key's bucket that Identical matches, else nil; Delete removes exactly that entry, reports whether there was one, adjusts the length by it, leaves every other entry and bucket as it was; Set replaces the value of that entry, or adds (key, value) in a dead slot or at the end, length +1, everything else as it was; Len returns the length",
   note="trusted: well-formedness of types (go/types/zz_verif_types.go: no nil element, no typed nil component, embedded interfaces named), purity of Identical and Hash, go/ssa front end, SMT solvers. Not covered: reflexivity, symmetry, transitivity, 'identical implies equal hash' (relational properties over recursive structure: need induction over two runs; exercised only by the replay search), termination on cyclic types, Iterate/Keys/Values/String, that different buckets hold no identical keys",
